@@ -12,6 +12,14 @@ textbook depth-first `closure` over the spread graph, and the inductive relation
 
 `Resolved defs` = what the parser + import resolver can produce: operations and fragments only, no empty selection set.
 `envOf defs` = name ↦ body of the fragment definition of that name (`getFrag_unique`: THE definition when names are unique).
+
+FROM FILES (second stage, `Props/C12Composed.lean`): the theorems below start from an already import-resolved document;
+`C12_from_files*` compose them with C13's import resolver (`Model/Imports.lean`) and state the same for a finite set of
+files, a root file and any path resolver — runtime document = `[X] ++` the reference closure over the REFERENCE import
+set (`Spec/Imports.lean`), the two outcomes when a reachable fragment is not brought in, and how a name clash between
+a local and an imported fragment behaves (the imported one shadows; the checker rejects).
+STILL CARRIED BY K/O ONLY: the text level (json_writer escaping, the `const … =` frame around the literal) and the
+parser's reading of the source text (C07).
 -/
 namespace NitroVerif.C12
 open NitroVerif NitroVerif.Gql NitroVerif.DocJson NitroVerif.ReadDoc NitroVerif.FragClosure
